@@ -190,9 +190,54 @@ class SeqOf(PSpec):
             return ex.alloc(st, ListObj(L.LT.of(items)))
         n = ex.fresh(name + ".len", z3.IntSort())
         st.assume(n >= self.min_len)
+        if self.max_len is not None:
+            st.assume(n <= self.max_len)
         i = ex.fresh(name + ".i", z3.IntSort())
-        el = self.elem(ex, st, f"{name}[i]", i)
+        el = generic_element(ex, st, i, n, lambda: self.elem(ex, st, f"{name}[i]", i))
         return ex.alloc(st, ListObj(L.LT([L.MapSeg(i, n, L.LT([L.Unit(el)]), name)])))
+
+
+def generic_element(ex, st: State, i, n, build: Callable[[], Any]):
+    """builds the element at the symbolic index i: every fresh symbol created meanwhile is a function of i, and every
+    constraint assumed meanwhile is asserted for all indices in range"""
+    n0 = len(st.pc)
+    saved = ex.index_ctx
+    ex.index_ctx = i
+    try:
+        el = build()
+    finally:
+        ex.index_ctx = saved
+    new = st.pc[n0:]
+    del st.pc[n0:]
+    if new:
+        st.assume(z3.ForAll([i], z3.Implies(z3.And(i >= 0, i < n), z3.And(*new))))
+    return el
+
+
+class DictOf(PSpec):
+    """mapping with an arbitrary number of entries: a symbolic sequence of (key, value) pairs with distinct keys;
+    `key(ex, st, name, i)` / `value(ex, st, name, i)` build the entry at the symbolic index i"""
+
+    def __init__(self, key: Callable, value: Callable) -> None:
+        self.key, self.value = key, value
+
+    def make(self, ex, st, name):
+        n = ex.fresh(name + ".len", z3.IntSort())
+        st.assume(n >= 0)
+        i = ex.fresh(name + ".i", z3.IntSort())
+        k, v = generic_element(ex, st, i, n, lambda: (self.key(ex, st, f"{name}.key", i),
+                                                      self.value(ex, st, f"{name}.val", i)))
+        j = ex.fresh(name + ".j", z3.IntSort())
+        kj = ex.subst(st, k, i, j)
+        # keys of a dict are pairwise distinct
+        st.assume(z3.ForAll([i, j], z3.Implies(z3.And(i >= 0, i < n, j >= 0, j < n, k.t == kj.t), i == j)))
+        return ex.alloc(st, DictObj([], L.LT([L.MapSeg(i, n, L.LT([L.Unit(Tup([k, v]))]), name)])))
+
+
+def indexed(name: str, i, sort=None):
+    """uninterpreted function of the index: the i-th element's attribute"""
+    f = z3.Function(name, z3.IntSort(), sort if sort is not None else Sc)
+    return f(i)
 
 
 class Raw(PSpec):
@@ -287,6 +332,16 @@ class Contract:
         self.concretize: Optional[Callable] = getattr(cls, "concretize", None)
         self.call_native: Optional[Callable] = getattr(cls, "call_native", None)
         self.loops: Dict[int, Any] = getattr(cls, "loops", {})
+        self.ghost_out: Sequence[str] = getattr(cls, "ghost_out", ())
+        self.clause_props: Dict[str, Sequence[str]] = getattr(cls, "clause_props", {})
+
+    def clauses_for(self, prop: Optional[str]) -> Optional[List[str]]:
+        """names of the clauses that serve property `prop` (None = all); a clause without an entry in `clause_props`
+        serves every property of the contract"""
+        if prop is None:
+            return None
+        names = list(self.posts) + [f"raises-{k}" for k, v in self.raises.items() if v] + ["raises-only-declared"]
+        return [n for n in names if prop in self.clause_props.get(n, self.props)]
         self.notes: str = (cls.__doc__ or "").strip()
 
     # --- AST of a clause -------------------------------------------------------------------------------------
@@ -325,7 +380,70 @@ class Contract:
             return self.hook(ex, st, bound)
         if self.has_model:
             return self.call_clause(ex, st, "model", bound)
-        raise Unsupported(f"contract {self.target} has neither a model nor a hook for modular use")
+        return self.apply_relational(ex, st, bound)
+
+    def clause_formula(self, ex, st: State, clause: str, env: Dict[str, Any]) -> z3.BoolRef:
+        """truth of a (pure) clause in state `st` as ONE formula: the disjunction over the clause's own paths of
+        (path condition beyond st.pc) and (truthiness of the value).  `st` is not modified."""
+        base = st.fork()
+        n0 = len(base.pc)
+        k0 = len(ex.skolems)
+        disj = []
+        for s2, v in self.call_clause(ex, base, clause, env):
+            if isinstance(v, Exc):
+                if ex.feasible(s2.pc):
+                    raise Unsupported(f"clause {clause} of {self.target} raised {v.cls}")
+                continue
+            delta = s2.pc[n0:]
+            disj.append(z3.And(*delta, ex.truth(s2, v)) if delta else ex.truth(s2, v))
+        if not disj:
+            return z3.BoolVal(False)
+        f = z3.Or(*disj) if len(disj) > 1 else disj[0]
+        sk = ex.skolems[k0:]
+        del ex.skolems[k0:]
+        if sk:
+            f = z3.Exists(sk, f)  # witnesses chosen inside the clause (e.g. the index a lookup hits)
+        return f
+
+    def apply_relational(self, ex, st: State, bound: Dict[str, Any]) -> List[Tuple[State, Any]]:
+        """the general modular rule: the callee is known only through its contract - it raises exactly under its
+        declared conditions (a class declared without condition may be raised at any time) and otherwise returns a
+        fresh value about which nothing but the postconditions is known"""
+        if self.returns is None:
+            raise Unsupported(f"contract {self.target} has no `returns` specification for modular use")
+        outs: List[Tuple[State, Any]] = []
+        states = [st]
+        for cls, cond in self.raises.items():
+            nxt: List[State] = []
+            for s in states:
+                if not cond or cond.startswith("may_"):
+                    s_r = s.fork()
+                    msg = SV(mk_s(ex.fresh("msg", z3.StringSort())), "str")
+                    outs.append(ex.raise_(s_r, cls, msg, error_message=msg))
+                    nxt.append(s)
+                    continue
+                f = self.clause_formula(ex, s, cond, bound)
+                for s3, t in ex.branch(s, f):
+                    if t:
+                        msg = SV(mk_s(ex.fresh("msg", z3.StringSort())), "str")
+                        outs.append(ex.raise_(s3, cls, msg, error_message=msg))
+                    else:
+                        nxt.append(s3)
+            states = nxt
+        for s in states:
+            res = self.returns.make(ex, s, "ret_" + self.name)
+            for g in self.ghost_out:
+                s.ghost[g] = res  # ghost variables the callee establishes (e.g. the root the fold produced)
+            env = dict(bound)
+            env["result"] = res
+            for gk, gv in s.ghost.items():
+                if isinstance(gk, str):
+                    env["ghost_" + gk] = gv
+            for p in self.posts:
+                s.assume(self.clause_formula(ex, s, p, env))
+            if ex.feasible(s.pc):
+                outs.append((s, res))
+        return outs
 
 
 # ------------------------------------------------------------------------------------------------- lemmas
